@@ -9,26 +9,34 @@ use oxidd_core::util::OptBool;
 
 /// `r` (truth table of the returned cube) is the cube obtained from `f` when every
 /// non-forced decision is `free(level)` (`None` = any choice allowed)
-pub fn cube_spec_ok(f: G, r: G, free: &[Option<bool>; L]) -> bool {
+pub fn cube_spec_ok(f: G, r: G, free: &[Option<bool>; L], literal_on_dont_care: bool) -> bool {
     if f == 0 {
         return r == 0;
     }
     let mut cur = f;
     let mut lits: G = !0;
     let mut ok = true;
-    macro_rules! step { ($l:expr) => { if $l < L && depends(cur, $l) {
-        let (t, e) = (cof1(cur, $l), cof0(cur, $l));
+    macro_rules! step { ($l:expr) => { if $l < L {
         // polarity of the variable in the returned cube
         let pol = cof0(r, $l) == 0;
-        ok = ok && depends(r, $l);
-        if t == 0 { ok = ok && !pol; }
-        else if e == 0 { ok = ok && pol; }
-        else if let Some(c) = free[$l] { ok = ok && pol == c; }
-        lits &= if pol { MASK[$l] } else { !MASK[$l] };
-        cur = if pol { t } else { e };
+        if depends(cur, $l) {
+            let (t, e) = (cof1(cur, $l), cof0(cur, $l));
+            ok = ok && depends(r, $l);
+            if t == 0 { ok = ok && !pol; }
+            else if e == 0 { ok = ok && pol; }
+            else if let Some(c) = free[$l] { ok = ok && pol == c; }
+            lits &= if pol { MASK[$l] } else { !MASK[$l] };
+            cur = if pol { t } else { e };
+        } else if depends(r, $l) {
+            // The function does not care about this variable here. The cube may only fix it
+            // if a literal set asks for exactly this polarity ("follows the polarity given in
+            // the literal set"); otherwise it has to stay don't-care.
+            ok = ok && literal_on_dont_care && free[$l] == Some(pol);
+            lits &= if pol { MASK[$l] } else { !MASK[$l] };
+        }
     } } }
     step!(0); step!(1); step!(2); step!(3);
-    // the walk ends in "true", and the cube constrains exactly the visited variables
+    // the walk ends in "true", and the cube constrains exactly the collected literals
     ok && cur == !0 && r == lits
 }
 
@@ -71,7 +79,7 @@ macro_rules! pick_cube_harnesses {
                 assert!(v.len() == L, "C13: pick_cube reports one entry per variable");
                 let r = cube_of_vec(&s, v);
                 assert!(r != 0 && r & !fg == 0, "C13: pick_cube returns a cube that implies the function");
-                assert!(cube_spec_ok(fg, r, &free), "C13: forced variables are forced, free variables follow the choice function, the rest is don't-care");
+                assert!(cube_spec_ok(fg, r, &free, false), "C13: forced variables are forced, free variables follow the choice function, the rest is don't-care");
             }
             kani::cover!(v.is_some() && c[0] + c[1] >= 2, "two free choices");
             std::mem::forget(v);
@@ -89,7 +97,7 @@ macro_rules! pick_cube_harnesses {
             if let Ok(e) = &r {
                 assert!((s.g(e) == 0) == (fg == 0), "C13: pick_cube_dd returns false exactly for the unsatisfiable function");
                 assert!(s.g(e) & !fg == 0, "C13: pick_cube_dd returns an implicant");
-                assert!(cube_spec_ok(fg, s.g(e), &free), "C13: pick_cube_dd describes the same cube as pick_cube under the same choices");
+                assert!(cube_spec_ok(fg, s.g(e), &free, false), "C13: pick_cube_dd describes the same cube as pick_cube under the same choices");
             }
             kani::cover!(r.is_ok() && s.created.get() >= 2, "cube with two new nodes");
             kani::cover!(r.is_err(), "out-of-memory path");
@@ -111,7 +119,7 @@ macro_rules! pick_cube_harnesses {
             if let Ok(e) = &r {
                 assert!((s.g(e) == 0) == (fg == 0), "C13: pick_cube_dd_set returns false exactly for the unsatisfiable function");
                 assert!(s.g(e) & !fg == 0, "C13: pick_cube_dd_set returns an implicant");
-                assert!(cube_spec_ok(fg, s.g(e), &free), "C13: unforced variables follow the polarity given in the literal set");
+                assert!(cube_spec_ok(fg, s.g(e), &free, true), "C13: unforced variables follow the polarity given in the literal set");
             }
             kani::cover!(r.is_ok() && support_size(lg) >= 2 && support_size(fg) >= 2, "two literals in the set");
         }
